@@ -461,3 +461,12 @@ def ddmin(items, still_fails, max_tests=400):
                 break
             n = min(len(items), n * 2)
     return items
+
+
+def coqchk(pid, timeout=1500):
+    """Independent re-check of the property's compiled theorems and everything they depend on (thorough tier).
+    Returns the CONTEXT SUMMARY (axioms, type-in-type, unsafe fixpoints, assumed positivity)."""
+    cmd = "ulimit -s unlimited 2>/dev/null; timeout %d coqchk -o -silent -R theories AF -R gen AFGen -R extract AFExtract AF.Props.%s" % (timeout, pid)
+    rc, out = sh(cmd, cwd=COQ, timeout=timeout + 60)
+    i = out.find("CONTEXT SUMMARY")
+    return rc, (out[i:] if i >= 0 else out[-1500:]).strip()
